@@ -711,6 +711,13 @@ pub fn run_property(def: PropertyDef, tier: Tier, seed: u64, only: Option<&str>)
 	if def.exhaustive {
 		coverage["exhaustive"] = json!(true);
 	}
+	// libFuzzer campaign summary written by /verif/check for this run (thorough tier)
+	let fz = Path::new(VERIF_DIR).join("harness/.run").join(format!("fuzz_summary_{}.json", def.id));
+	if let Ok(text) = std::fs::read_to_string(&fz) {
+		if let Ok(v) = serde_json::from_str::<Value>(&text) {
+			coverage["fuzz_campaigns"] = v;
+		}
+	}
 	let evidence = json!({
 		"property_id": def.id,
 		"tier": tier.name(),
